@@ -75,6 +75,13 @@ CHECKS["C11"] = ("exploration", "4 C11",
     "runtime monitoring: path->content model checked against os.walk + read-back of every file after every step of generated write/move/copy/convert/delete histories; audit-hook write-set confinement; NetCDF4/CSV default-handler round trips in child processes",
     "Hundreds of histories of 5-40 steps over filesets whose templates change layout, end-field style and compression suffix; selections by period, file list and filters.")
 
+CHECKS["C06"] = ("exploration", "4 C06",
+    "runtime monitoring: dense longdouble distance-matrix oracle vs GeoIndex.query for both metrics, tree classes, leaf sizes, unit spellings; numpy.random.shuffle replaced by harness-chosen permutations - all n! permutations enumerated for <= 6 build points, sampled beyond",
+    "~85 000 queries per quick run incl. the full permutation sweep of 528 small build sets (the shuffle is the schedule of this randomised structure); pair sets, index translation and the km distance column are compared with one oracle answer per family.")
+CHECKS["C20"] = ("exploration", "4 C20",
+    "runtime monitoring: SRTM30.get_tile replaced by synthetic tiles addressed by global row/column (no network/data), exact rational grid oracle for lat/lon vectors, cell-by-cell mosaic comparison, independent tile table; real get_tile cache histories with download_tile replaced by a counter",
+    "Thousands of rectangles (aligned/unaligned, thinner than a cell, 1-4 tiles, tile borders, +-180) and cache histories; every mosaic cell compared with the one tile pixel centred there.")
+
 NOT_YET = {}
 
 
